@@ -228,3 +228,41 @@ func VH_C04_conc(kind, nact int) {
 	}
 	vreach("end")
 }
+
+// VH_C04_dep: the condition depends on the when-binding (pattern {b: ?x}), so it holds for
+// some of the event's binding sets and not for others: every binding set is still
+// evaluated, and the action runs exactly for those whose condition holds.
+func VH_C04_dep(kind, serial int) {
+	env, in := vhDispatchEnv(kind)
+	r := vhRule(map[string]interface{}{"a": []interface{}{"?x"}}, "a1")
+	r["condition"] = map[string]interface{}{"pattern": map[string]interface{}{"b": "?x"}}
+	if serial == 1 {
+		r["policies"] = map[string]interface{}{"serialActions": true}
+	}
+	_, err := env.loc.AddRule(env.ctx, "r0", r)
+	vassume(err == nil)
+	f0 := vsymStrN("f0", 2)
+	vassume(!IsVariable(f0))
+	_, err = env.loc.AddFact(env.ctx, "f0", Map{"b": f0})
+	vassume(err == nil)
+	n := 2
+	var xs []interface{}
+	for i := 0; i < n; i++ {
+		s := vsymStrN("e"+strconv.Itoa(i), 2)
+		vassume(!IsVariable(s))
+		for _, o := range xs {
+			vassume(!vdeepEq(s, o))
+		}
+		xs = append(xs, s)
+	}
+	_, cnd := env.loc.ProcessEvent(env.ctx, Map{"a": xs})
+	vassert(cnd == nil, "event-complete")
+	for _, x := range xs {
+		got := int64(0)
+		for _, e := range in.execs {
+			got += viteInt(vdeepEq(e.bindings["?x"], x), 1, 0)
+		}
+		vassert(got == viteInt(vdeepEq(x, f0), 1, 0), "action-runs-iff-condition-holds-for-the-binding")
+	}
+	vreach("end")
+}
